@@ -40,6 +40,9 @@ pub struct Cfg {
     /// keep at most this many hook events (0 = all)
     #[serde(default)]
     pub path_cap: usize,
+    /// record the schedule-hook events (thread states at every Execution::schedule call) of every iteration
+    #[serde(default)]
+    pub want_sched: bool,
     /// record the outcome of every iteration in order (C13/C16)
     #[serde(default)]
     pub want_seq: bool,
@@ -71,6 +74,8 @@ pub struct RunResult {
     pub phases: Vec<(String, usize)>,
     /// raw iteration-hook events (phase, iter, path json) when `want_paths`
     pub hook_events: Vec<(String, usize, String)>,
+    /// per completed iteration: the schedule-hook events (path_pos, prev, next or -1, states) when `want_sched`
+    pub sched_events: Vec<Vec<(usize, usize, i64, Vec<u8>)>>,
 }
 
 /// progress callback (iterations so far) so that a watchdog can tell a long run from a hang
@@ -214,8 +219,22 @@ pub fn run_program(prog: &Prog, cfg: &Cfg) -> RunResult {
     let acc2 = acc.clone();
     let cfg2 = cfg.clone();
     let prog2 = prog.clone();
+    let sched: Rc<RefCell<Vec<(usize, usize, i64, Vec<u8>)>>> = Rc::new(RefCell::new(Vec::new()));
+    if cfg.want_sched {
+        let s2 = sched.clone();
+        loom::verif::set_schedule_hook(Some(Box::new(move |e| {
+            s2.borrow_mut().push((e.path_pos, e.prev, e.next.map(|n| n as i64).unwrap_or(-1), e.states.clone()));
+        })));
+    }
+    let sched3 = sched.clone();
     loom::verif::set_iteration_hook(Some(Box::new(move |phase, iter, path| {
         let mut a = acc2.borrow_mut();
+        if cfg2.want_sched && phase == "end" {
+            let evs = std::mem::take(&mut *sched3.borrow_mut());
+            if cfg2.path_cap == 0 || a.res.sched_events.len() < cfg2.path_cap {
+                a.res.sched_events.push(evs);
+            }
+        }
         if cfg2.want_paths {
             a.res.phases.push((phase.to_string(), iter));
             if cfg2.path_cap == 0 || a.res.hook_events.len() < cfg2.path_cap {
@@ -285,6 +304,7 @@ pub fn run_program(prog: &Prog, cfg: &Cfg) -> RunResult {
         });
     }));
     loom::verif::set_iteration_hook(None);
+    loom::verif::set_schedule_hook(None);
 
     let pending = acc.borrow_mut().pending.take();
     if r.is_ok() {
